@@ -9,7 +9,7 @@ use std::borrow::Cow;
 use std::io;
 
 /// Checks if the given string consists only of characters which can be represented in XML 1.0.
-pub(super) fn is_xml_representable(s: &str) -> bool {
+pub(crate) fn is_xml_representable(s: &str) -> bool {
     s.chars().all(|c| {
         matches!(c, '\t' | '\n' | '\r' | '\u{20}'..='\u{d7ff}' | '\u{e000}'..='\u{fffd}' | '\u{10000}'..)
     })
